@@ -169,6 +169,17 @@ theorem getD_setAxis_eq (p : List Int) (axis : Nat) (v : Int) (h : axis < p.leng
     | zero => simp [setAxis]
     | succ a => simpa [setAxis] using ih a (by simpa using h)
 
+theorem setAxis_self (p : List Int) (axis : Nat) (hl : axis < p.length) :
+    setAxis p axis (p.getD axis 0) = p := by
+  induction p generalizing axis with
+  | nil => simp at hl
+  | cons y ys ih =>
+    cases axis with
+    | zero => simp [setAxis]
+    | succ a =>
+      simp only [setAxis, List.getD_cons_succ]
+      rw [ih a (by simpa using hl)]
+
 theorem inside_setAxis (s : List Nat) (p : List Int) (axis : Nat) (v : Int) (hp : inside s p = true)
     (h0 : 0 ≤ v) (h1 : v < ((s.getD axis 1 : Nat) : Int)) : inside s (setAxis p axis v) = true := by
   induction s generalizing p axis with
@@ -283,6 +294,125 @@ theorem transposeImg_invPerm (perm : List Nat) (s : List Nat) (h : perm.Perm (Li
     exact (invPerm_roundtrip perm _ h _ 0).trans (range_map_getD_self p _ 0 (inside_length _ _ hp))
   rw [hback] at h2
   exact h2
+
+end semiring
+end Mahotas.C06
+
+namespace Mahotas.C06
+open Mahotas
+
+/-! ### the `(-1, N)` view of `convolve1d` and the way back -/
+
+section semiring
+variable {R : Type} [CommSemiring R]
+
+theorem moveLast_map {β : Type} (n axis : Nat) (g : Nat → β) :
+    (moveLast n axis).map g = (otherAxes n axis).map g ++ [g axis] := by
+  simp [moveLast]
+
+/-- the transposed coordinates of `p[axis := x]` are the other coordinates of `p` followed by `x` -/
+theorem moveLast_map_setAxis (s : List Nat) (axis : Nat) (p : List Int) (x : Int)
+    (hax : axis < s.length) (hp : inside s p = true) :
+    ((moveLast s.length axis).map fun a => (setAxis p axis x).getD a 0) =
+      ((otherAxes s.length axis).map fun a => p.getD a 0) ++ [x] := by
+  rw [moveLast_map, getD_setAxis_eq p axis x (by rw [inside_length _ _ hp]; exact hax)]
+  congr 1
+  apply List.map_congr_left
+  intro a ha
+  exact getD_setAxis_ne p axis a x ((mem_otherAxes _ _ _).1 ha).2
+
+theorem inside_otherAxes (s : List Nat) (axis : Nat) (p : List Int) (hp : inside s p = true) :
+    inside (otherShape s axis) ((otherAxes s.length axis).map fun a => p.getD a 0) = true :=
+  inside_map_getD s p hp _ (fun _ ha => ((mem_otherAxes _ _ _).1 ha).1)
+
+theorem rowIndex_lt (s : List Nat) (axis : Nat) (p : List Int) (hp : inside s p = true) :
+    rowIndex s axis p < shapeSize (otherShape s axis) :=
+  ravelI_lt _ _ (inside_otherAxes s axis p hp)
+
+theorem transposed_shape (s : List Nat) (axis : Nat) :
+    ((moveLast s.length axis).map fun a => s.getD a 1) = otherShape s axis ++ [s.getD axis 1] :=
+  moveLast_map _ _ _
+
+/-- the C-order rank of the transposed coordinates of `p[axis := x]` in the transposed shape is the
+    rank of `(row of p, x)` in the `(-1, N)` shape -/
+theorem ravelI_transposed (s : List Nat) (axis : Nat) (p : List Int) (x : Int)
+    (hp : inside s p = true) :
+    ravelI (otherShape s axis ++ [s.getD axis 1])
+        (((otherAxes s.length axis).map fun a => p.getD a 0) ++ [x]) =
+      ravelI [shapeSize (otherShape s axis), s.getD axis 1] [(rowIndex s axis p : Int), x] := by
+  rw [ravelI_concat _ _ _ _ (inside_otherAxes s axis p hp), ravelI_pair]
+  rfl
+
+theorem inside_pair (N0 N1 r : Nat) (x : Int) (hr : r < N0) (h0 : 0 ≤ x) (h1 : x < (N1 : Int)) :
+    inside [N0, N1] [(r : Int), x] = true := by
+  simp only [inside, Bool.and_eq_true, decide_eq_true_eq, and_true]
+  exact ⟨⟨by omega, by omega⟩, h0, h1⟩
+
+/-- **cell `(row of p, x)` of `f.transpose(indices).reshape((-1, N))` is `f[p[axis := x]]`** -/
+theorem rowsView_getD (f : Img R) (axis : Nat) (p : List Int) (x : Int)
+    (hax : axis < f.shape.length) (hp : inside f.shape p = true)
+    (h0 : 0 ≤ x) (h1 : x < ((f.shape.getD axis 1 : Nat) : Int)) :
+    (rowsView f axis).getD [(rowIndex f.shape axis p : Int), x] 0 = f.getD (setAxis p axis x) 0 := by
+  have hperm := moveLast_perm f.shape.length axis hax
+  have hp' := inside_setAxis f.shape p axis x hp h0 h1
+  have hT := transposeImg_getD (moveLast f.shape.length axis) f hperm (setAxis p axis x) hp'
+  rw [moveLast_map_setAxis f.shape axis p x hax hp, transposeImg_shape, transposed_shape] at hT
+  unfold rowsView
+  rw [reshapeImg_getD _ _ (by
+      rw [transposeImg_shape, transposed_shape, shapeSize_concat]; simp [shapeSize]) _
+      (inside_pair _ _ _ x (rowIndex_lt f.shape axis p hp) h0 h1),
+    ← ravelI_transposed f.shape axis p x hp, transposeImg_shape, transposed_shape,
+    unravelI_ravelI _ _ hT.1]
+  exact hT.2
+
+theorem rowsView_shape (f : Img R) (axis : Nat) :
+    (rowsView f axis).shape = [shapeSize (otherShape f.shape axis), f.shape.getD axis 1] := rfl
+
+/-- **the rows of the 2-D view are the lines through the pixels**: the row of
+    `f.transpose(indices).reshape((-1, N))` whose number is the C-order rank of `p` without its `axis`
+    coordinate is `lineThrough f axis p`, for every inside position `p` -/
+theorem rowOf_rowsView (f : Img R) (axis : Nat) (p : List Int) (hax : axis < f.shape.length)
+    (hp : inside f.shape p = true) :
+    rowOf (rowsView f axis) (rowIndex f.shape axis p) = lineThrough f axis p := by
+  unfold rowOf lineThrough
+  simp only [rowsView_shape, List.getD_cons_succ, List.getD_cons_zero]
+  congr 2
+  apply List.map_congr_left
+  intro x hx
+  exact rowsView_getD f axis p (x : Int) hax hp (by omega) (by exact_mod_cast List.mem_range.1 hx)
+
+/-- **the way back**: in `tmp.reshape(tshape).transpose(rindices)` the cell `(row of p, x)` of the 2-D
+    buffer `tmp` lands at the logical position `p[axis := x]`; the result has the shape of `f` -/
+theorem unrowsView_getD (s : List Nat) (axis : Nat) (hax : axis < s.length) (tmp : Img R)
+    (htmp : tmp.shape = [shapeSize (otherShape s axis), s.getD axis 1]) :
+    (unrowsView s axis tmp).shape = s ∧
+    ∀ p, inside s p = true → ∀ x : Int, 0 ≤ x → x < ((s.getD axis 1 : Nat) : Int) →
+      (unrowsView s axis tmp).getD (setAxis p axis x) 0 = tmp.getD [(rowIndex s axis p : Int), x] 0 := by
+  have hperm := moveLast_perm s.length axis hax
+  have hback := transposeImg_invPerm (moveLast s.length axis) s hperm
+    (reshapeImg ((moveLast s.length axis).map fun a => s.getD a 1) tmp) rfl
+  refine ⟨hback.1, fun p hp x h0 h1 => ?_⟩
+  have hp' := inside_setAxis s p axis x hp h0 h1
+  have hin : inside (otherShape s axis ++ [s.getD axis 1])
+      (((otherAxes s.length axis).map fun a => p.getD a 0) ++ [x]) = true :=
+    inside_concat _ _ _ _ (inside_otherAxes s axis p hp) h0 h1
+  unfold unrowsView
+  rw [hback.2 _ hp', moveLast_map_setAxis s axis p x hax hp, transposed_shape,
+    reshapeImg_getD _ _ (by rw [htmp, shapeSize_concat]; simp [shapeSize]) _ hin,
+    ravelI_transposed s axis p x hp, htmp,
+    unravelI_ravelI _ _ (inside_pair _ _ _ x (rowIndex_lt s axis p hp) h0 h1)]
+
+/-- the same, read at `p` itself: `out[p] = tmp[row of p, p[axis]]` -/
+theorem unrowsView_getD_self (s : List Nat) (axis : Nat) (hax : axis < s.length) (tmp : Img R)
+    (htmp : tmp.shape = [shapeSize (otherShape s axis), s.getD axis 1]) (p : List Int)
+    (hp : inside s p = true) :
+    (unrowsView s axis tmp).getD p 0 = tmp.getD [(rowIndex s axis p : Int), p.getD axis 0] 0 := by
+  have hx := getD_lt_of_inside s p axis hp hax
+  have h := (unrowsView_getD s axis hax tmp htmp).2 p hp (p.getD axis 0) hx.1 hx.2
+  have hset : setAxis p axis (p.getD axis 0) = p :=
+    setAxis_self p axis (by rw [inside_length _ _ hp]; exact hax)
+  rw [hset] at h
+  exact h
 
 end semiring
 end Mahotas.C06
